@@ -265,10 +265,11 @@ func (r *clientRun) checkBackoff(rep *Report) string {
 			// the attempt failed in the handshake, not in the dial: judged under a rule of its own
 			if gap < 25*time.Millisecond || gap > time.Second || gap < prevGap {
 				r.handshakeBackoff = fmt.Sprintf("retry #%d of a run of failed connection attempts came %v after an attempt that connected and failed its handshake (previous back-off %v): the back-off must stay within [25ms, 1s] and never decrease within a run of failures", run+1, gap, prevGap)
-				run, prevGap = 0, 0
-				continue
 			}
-			prevGap = gap
+			// the library restarts its attempt counter at every TCP connect (that is the listed finding): what
+			// follows is judged as a new run of failures, so that only the step across the failed handshake
+			// falls under the finding's rule
+			run, prevGap = 0, 0
 			continue
 		}
 		if gap < 25*time.Millisecond || gap > time.Second {
